@@ -269,6 +269,11 @@ MarkerConfined(doc, marker) ==
   \A i \in 1..Len(doc.namestok) : ~IsSubSeqAt(marker, doc.namestok[i])
 C08_OK(ev) == VocabularyOnly(ev.doc) /\ MarkerConfined(ev.doc, ev.marker)
 C08_NT(ev) == TRUE
+\* ... and what the input spells is character data, literally: text that looks like an entity or a character reference
+\* must read back as that text, not as the character it would denote (the event carries the payload runs)
+C08v_OK(ev) ==
+  /\ \A i \in 1..Len(ev.expect_text) : SomeTextIs(ev.doc, Shown(ev.expect_text[i]))
+  /\ \A i \in 1..Len(ev.expect_style) : AnyStyleLineContains(ev.doc, Shown(ev.expect_style[i]))
 
 ---------------------------------------------------------------------------
 (* C05 — rectangles: soundness for any document, completeness for the box family             *)
